@@ -106,7 +106,8 @@ CHECKS = {
              "exactly the first pending matching one-shot listener in registration order, with that command; at most "
              "one per command; a match implies the same command type; the callbacks invoked are exactly the matching "
              "ones, in order, once; the table keeps finished waiters until the loop step ends so further commands of "
-             "the same step go to the next waiter. Tied by driving real wait_for_responses / "
+             "the same step go to the next waiter; and over every history of registrations, cancellations, receptions and step ends "
+             "(fresh listener identities) no waiter is resolved twice nor after its cancellation. Tied by driving real wait_for_responses / "
              "register_indication_listeners / frame_received with real frames, cancellations and multi-command steps.",
         note="callbacks do not re-enter the listener API; parameter values abstracted to their integer value",
         design="7/C12"),
